@@ -18,7 +18,7 @@ import numpy as np
 from harness.common import enc, Z, to_zs, kids, tag, is_err
 
 PROP = 'C02'
-GENERATORS = ['gen_tables', 'gen_codecs']
+GENERATORS = ['gen_tables', 'gen_codecs', 'gen_dispatch']   # gen_dispatch: C12.Model (imported by the C02 model) uses Gen_dispatch
 TRUSTED = [
     'table extractor tools/gen/gen_tables.py (class table, registries regenerated from the package on every run; its ast rules: '
     'instance attributes = self.X assignments in the __init__ methods along the MRO, cls(...) call shape of __setgluestate__)',
